@@ -172,7 +172,36 @@ pub fn transaction(owner: &bls::SecretKey, other: &bls::SecretKey, n: u32, valid
     let mut content = [0u8; 32];
     content[..4].copy_from_slice(&n.to_le_bytes());
     let signer = if valid { owner } else { other };
-    Transaction::new(owner.public_key(), vec![], content, vec![], signer)
+    let (parents, outputs) = tx_links(n);
+    Transaction::new(owner.public_key(), parents, content, outputs, signer)
+}
+
+/// Parents and outputs of transaction `n` (every signed field is populated, so that a signature that does
+/// not cover one of them can be noticed).
+fn tx_links(n: u32) -> (Vec<bls::PublicKey>, Vec<(bls::PublicKey, [u8; 32])>) {
+    let pk = |i: u64| bls_key(0x7a11, i).public_key();
+    let mut c1 = [1u8; 32];
+    c1[..4].copy_from_slice(&n.to_le_bytes());
+    let mut c2 = [2u8; 32];
+    c2[..4].copy_from_slice(&n.to_le_bytes());
+    (vec![pk(1)], vec![(pk(2), c1), (pk(3), c2)])
+}
+
+/// A transaction validly signed by `owner` and then altered without re-signing: `what` 0 = the contents of
+/// the two outputs swapped, 1 = an output key replaced, 2 = the parent replaced, 3 = the content changed.
+pub fn tampered_transaction(owner: &bls::SecretKey, other: &bls::SecretKey, n: u32, what: u8) -> Transaction {
+    let mut t = transaction(owner, other, n, true);
+    match what % 4 {
+        0 => {
+            let a = t.outputs[0].1;
+            t.outputs[0].1 = t.outputs[1].1;
+            t.outputs[1].1 = a;
+        }
+        1 => t.outputs[0].0 = other.public_key(),
+        2 => t.parents[0] = other.public_key(),
+        _ => t.content[31] ^= 0x55,
+    }
+    t
 }
 
 pub fn transactions_value(txs: &[Transaction]) -> Vec<u8> {
